@@ -19,8 +19,8 @@ QREPL = ["(", ")", "sq", "dq", "bsl", ":", "$", "!", "{", "sp", "nl", "bt"]
 TIERS = {
     "quick": dict(char=[("num", 3), ("op", 2), ("str", 3), ("indent", 4), ("xonsh", 3), ("all", 2), ("py", 3)], soup=(30, 40),
                   hv=25, repl=QREPL, variants=1, maxseed=160),
-    "thorough": dict(char=[("num", 5), ("op", 4), ("str", 5), ("indent", 6), ("xonsh", 5), ("all", 3), ("py", 5)],
-                     soup=(40, 600), hv=600, repl=sorted(alpha.CLASSES), variants=2, maxseed=400),
+    "thorough": dict(char=[("num", 5), ("op", 3), ("str", 5), ("indent", 5), ("xonsh", 4), ("all", 3), ("py", 4)],
+                     soup=(40, 600), hv=250, repl=sorted(alpha.CLASSES), variants=1, maxseed=300),
 }
 
 
